@@ -929,6 +929,9 @@ def token_number(v, spec):
 # ----------------------------------------------------------------------------------------------
 # exploration
 # ----------------------------------------------------------------------------------------------
+_VERIF_ROOT = os.path.dirname(os.path.dirname(os.path.abspath(__file__)))
+
+
 class Stats:
     def __init__(self):
         self.paths = 0
@@ -963,6 +966,19 @@ def _run_path(fn, trace):
     except Infeasible:
         status = 'infeasible'
         c.obligations = []
+    except Exception as e:
+        # an exception raised by the harness, a stub or a synthetic slice (not by the repository's own code) means the
+        # code under test could not be executed in this form -- e.g. a refactor moved a statement out of the slice:
+        # that path is inconclusive, not a crash.  Exceptions raised inside the repository's code propagate.
+        tb, last = e.__traceback__, None
+        while tb is not None:
+            last = tb.tb_frame.f_code.co_filename
+            tb = tb.tb_next
+        if last and (last.startswith('<') or os.path.abspath(last).startswith(_VERIF_ROOT)):
+            status = 'unsupported: harness/slice not executable here: %s: %s' % (type(e).__name__, str(e)[:200])
+            c.obligations = []
+        else:
+            raise
     return c, out, status
 
 
